@@ -298,6 +298,88 @@ def gen_optimize(src: Path, out: list[str]):
     out.append(f"Definition opt_operand_keys : str * str := ({coq_str(k1)}, {coq_str(k2)}).")
 
 
+# ---- signature defaults: "default mode", "case-sensitive unless asked otherwise", "no synonyms unless asked" ... are part of what the
+# properties say; each property has its own table so that a changed default touches only the properties that speak about that function
+Q14 = ["compress", "expand", "compress_or_standardize", "expand_or_standardize", "standardize_prefix", "standardize_curie", "standardize_uri",
+       "parse_uri", "parse_curie", "expand_all", "expand_pair", "expand_reference", "expand_pair_all"]
+DEFAULT_GROUPS = {
+    "C01": [("api", "Converter.__init__"), ("api", "Converter.parse_uri"), ("api", "Converter.compress")],
+    "C02": [("api", "_split"), ("api", "Converter.expand"), ("api", "Converter.expand_pair"), ("api", "Converter.expand_reference"),
+            ("api", "Converter.expand_all"), ("api", "Converter.expand_pair_all"), ("api", "Converter.parse_curie")],
+    "C03": [("api", "Converter.compress"), ("api", "Converter.expand"), ("api", "Converter.standardize_uri"), ("api", "Converter.standardize_curie")],
+    "C04": [("api", "Converter.__init__")],
+    "C05": [("api", "Converter.add_record"), ("api", "Converter.add_prefix")],
+    "C06": [("api", "Converter.standardize_prefix"), ("api", "Converter.standardize_curie"), ("api", "Converter.standardize_uri")],
+    "C07": [("api", "Converter.compress_or_standardize"), ("api", "Converter.expand_or_standardize")],
+    "C08": [("api", "Converter." + f) for f in Q14],
+    "C09": [("api", "chain")],
+    "C14": [("api", "write_jsonld_context"), ("api", "write_shacl"), ("api", "write_tsv")],
+    "C15": [("api", "ReferenceTuple.from_curie"), ("api", "Reference.from_curie"), ("api", "NamableReference.from_curie"),
+            ("api", "NamedReference.from_curie"), ("triples", "write_triples"), ("triples", "read_triples")],
+    "C16": [("api", "Converter.pd_compress"), ("api", "Converter.pd_expand"), ("api", "Converter.pd_standardize_prefix"),
+            ("api", "Converter.pd_standardize_curie"), ("api", "Converter.pd_standardize_uri"), ("api", "Converter.file_compress"),
+            ("api", "Converter.file_expand")],
+    "C18": [("mapping_service/api", "MappingServiceGraph.__init__"), ("mapping_service/api", "get_flask_mapping_blueprint"),
+            ("mapping_service/api", "get_fastapi_router"), ("mapping_service/utils", "handle_header")],
+    "C19": [("discovery", "discover")],
+}
+_AST_CACHE: dict[str, ast.Module] = {}
+
+
+def _find_function(tree: ast.Module, qual: str) -> ast.FunctionDef:
+    """The implementation (the definition that is not an @overload stub) of `func` or `Class.func`."""
+    owner, _, name = qual.rpartition(".")
+    body = tree.body
+    if owner:
+        cls = [n for n in tree.body if isinstance(n, ast.ClassDef) and n.name == owner]
+        if len(cls) != 1:
+            raise Unsupported(f"class {owner}")
+        body = cls[0].body
+    fns = [n for n in body if isinstance(n, ast.FunctionDef) and n.name == name
+           and not any((isinstance(d, ast.Name) and d.id == "overload") or (isinstance(d, ast.Attribute) and d.attr == "overload") for d in n.decorator_list)]
+    if len(fns) != 1:
+        raise Unsupported(f"function {qual}: {len(fns)} definitions")
+    return fns[0]
+
+
+def signature_defaults(src: Path, group: str) -> list[tuple[str, str]]:
+    rows = []
+    for mod, qual in DEFAULT_GROUPS[group]:
+        path = src / "curies" / f"{mod}.py"
+        if str(path) not in _AST_CACHE:
+            _AST_CACHE[str(path)] = ast.parse(path.read_text())
+        fn = _find_function(_AST_CACHE[str(path)], qual)
+        a = fn.args
+        if a.vararg is not None and qual.split(".")[-1] not in ("__init__",):
+            raise Unsupported(f"{qual}: *args")
+        pos = a.posonlyargs + a.args
+        ds = [None] * (len(pos) - len(a.defaults)) + list(a.defaults)
+        items = [(x.arg, d) for x, d in zip(pos, ds)] + [(x.arg, d) for x, d in zip(a.kwonlyargs, a.kw_defaults)]
+        for arg, d in items:
+            if arg in ("self", "cls"):
+                continue
+            if d is None:
+                continue            # a required parameter
+            elif isinstance(d, (ast.Constant, ast.Name, ast.Tuple)):
+                rows.append((f"{qual}.{arg}", ast.unparse(d)))
+            else:
+                raise Unsupported(f"{qual}.{arg}: default {ast.dump(d)[:60]}")
+    return rows
+
+
+def _gen_defaults(group: str):
+    def f(src: Path, out: list[str]):
+        rows = signature_defaults(src, group)
+        out.append(f"Definition defaults_{group} : list (str * str) := [")
+        out.append(";\n".join(f"  ({coq_str(k)}, {coq_str(v)}) (* {k} = {v} *)" for k, v in rows))
+        out.append("].")
+    return f
+
+
+for _g in DEFAULT_GROUPS:
+    globals()[f"gen_defaults_{_g}"] = _gen_defaults(_g)
+
+
 def gen_resolver(src: Path, out: list[str]):
     tree = ast.parse((src / "curies" / "resolver_service.py").read_text())
     env = const_env(tree)
@@ -340,7 +422,7 @@ def gen_exceptions(src: Path, out: list[str]):
 
 
 SECTIONS = [("w3c", "gen_w3c"), ("discovery", "gen_discovery"), ("mapping", "gen_mapping"), ("optimize", "gen_optimize"), ("resolver", "gen_resolver"),
-            ("exceptions", "gen_exceptions")]
+            ("exceptions", "gen_exceptions")] + [(f"defaults_{g}", f"gen_defaults_{g}") for g in DEFAULT_GROUPS]
 
 
 def main(argv):
